@@ -21,6 +21,7 @@ TStep(e) ==
     [] e.a = "W_Exit"     -> W_Exit(e.t)
     [] e.a = "W_Fail"     -> W_Fail(e.t)
     [] e.a = "W_ExtStop"  -> W_ExtStop(e.t)
+    [] e.a = "W_Gone"     -> W_Gone(e.t)
     [] e.a = "Fetch"      -> EvFetch(e.n, SetOf(e.dead), e.vals)
     [] e.a = "Result"     -> EvResult(e.t, e.r, e.i, e.d)
     [] e.a = "StopTrial"  -> EvStopTrial(e.t)
